@@ -64,21 +64,38 @@ Proof.
       * right. exists pre, o', c. split; [reflexivity|]. cbn [rev] in H. rewrite <- app_assoc in H. exact H.
 Qed.
 
-Lemma wf_no_second_start id p k w l s a b rest :
-  wf_ops (a ++ OStart id p k w l s :: b ++ rest) = true ->
+Lemma started_ids_cons o h :
+  started_ids (o :: h) = match o with OStart i _ _ _ _ _ => i :: started_ids h | _ => started_ids h end.
+Proof. destruct o; reflexivity. Qed.
+
+(** a task whose latest start is followed by [b] is running iff [b] holds no end of it *)
+Lemma live_rev_app id b st older : starts_of id st = true ->
+  forallb (fun x => negb (starts_of id x)) b = true ->
+  live id (rev b ++ st :: older) = forallb (fun o => negb (ends_of id o)) b.
+Proof.
+  intros Hst. induction b as [|o b IH] using rev_ind; intro Hb.
+  - cbn [rev app forallb]. destruct st; cbn [starts_of] in Hst; try discriminate. cbn [live]. rewrite Hst. reflexivity.
+  - rewrite forallb_app in Hb. apply andb_true_iff in Hb. destruct Hb as [Hb Ho]. cbn in Ho.
+    rewrite andb_true_r in Ho. apply negb_true_iff in Ho.
+    rewrite rev_unit, forallb_app. cbn [app forallb]. rewrite andb_true_r, <- (IH Hb).
+    destruct o; cbn [live starts_of ends_of] in *; rewrite ?Ho; try (rewrite andb_true_r; reflexivity).
+    destruct (id0 =? id); cbn [negb]; [rewrite andb_false_r|rewrite andb_true_r]; reflexivity.
+Qed.
+
+(** a running task is not started again *)
+Lemma no_restart id b st older : wf_h (rev b ++ st :: older) = true -> starts_of id st = true ->
+  forallb (fun o => negb (ends_of id o)) b = true ->
   forallb (fun x => negb (starts_of id x)) b = true.
 Proof.
-  intro Hwf. apply forallb_forall. intros x Hx. apply negb_true_iff.
-  destruct (starts_of id x) eqn:E; [exfalso|reflexivity].
-  destruct x as [i p' k' w' l' s'| | | | | |]; try discriminate. cbn in E. apply N.eqb_eq in E. subst i.
-  apply in_split in Hx. destruct Hx as [b1 [b2 ->]].
-  unfold wf_ops in Hwf. rewrite !rev_app_distr in Hwf. cbn [rev] in Hwf.
-  rewrite !rev_app_distr in Hwf. cbn [rev] in Hwf. rewrite <- !app_assoc in Hwf. cbn [app] in Hwf.
-  apply wf_h_app in Hwf. apply wf_h_app in Hwf.
-  apply wf_h_cons in Hwf. destruct Hwf as [_ [_ [_ [Hns _]]]].
-  assert (existsb (N.eqb id) (started_ids (rev b1 ++ OStart id p k w l s :: rev a)) = true) as Hc; [|congruence].
-  apply existsb_eqb_In. unfold started_ids. apply in_flat_map.
-  exists (OStart id p k w l s). split; [apply in_or_app; right; left; reflexivity|left; reflexivity].
+  intros Hwf Hst. induction b as [|o b IH] using rev_ind; intro He; [reflexivity|].
+  rewrite forallb_app in He. apply andb_true_iff in He. destruct He as [He Ho].
+  rewrite rev_unit in Hwf. cbn [app] in Hwf.
+  pose proof (wf_h_app [o] _ Hwf) as Hwf'. specialize (IH Hwf' He).
+  rewrite forallb_app, IH. cbn [forallb]. rewrite andb_true_r. apply negb_true_iff.
+  destruct (starts_of id o) eqn:E; [exfalso|reflexivity].
+  destruct o; cbn [starts_of] in E; try discriminate. apply N.eqb_eq in E. subst.
+  apply wf_h_cons in Hwf. destruct Hwf as [_ [_ [_ Hl]]].
+  rewrite (live_rev_app id b st older Hst IH), He in Hl. discriminate.
 Qed.
 
 Theorem recorded_iff ops row : wf_ops ops = true ->
@@ -87,8 +104,9 @@ Proof.
   intro Hwf. rewrite spec_trace_In. unfold should_record. split.
   - intros [pre [o [c [-> H]]]]. rewrite app_nil_r in H.
     destruct o as [| id e | | | | |]; cbn [rows_of fst] in H; try contradiction.
+    destruct (live id (rev pre)) eqn:Hl; [|contradiction].
     destruct (split_start id (rev pre) []) as [[[b st] older]|] eqn:Es; [|contradiction].
-    destruct (split_start_sound _ _ _ _ _ Es) as [Hh [Hst _]].
+    destruct (split_start_sound _ _ _ _ _ Es) as [Hh [Hst Hns]].
     destruct st as [i p k w l s| | | | | |]; try discriminate.
     cbn in Hst. apply N.eqb_eq in Hst. subst i.
     destruct (on_after_h older || existsb is_start_tracing b) eqn:Ec; cbn [fst] in H; [|contradiction].
@@ -97,83 +115,93 @@ Proof.
     + assert (pre = rev older ++ OStart id p k w l s :: b) as ->.
       { rewrite <- (rev_involutive pre), Hh, rev_app_distr. cbn [rev]. rewrite rev_involutive, <- app_assoc. reflexivity. }
       rewrite <- app_assoc. reflexivity.
+    + rewrite Hh, (live_rev_app id b _ older) in Hl; [exact Hl| |exact Hns]. cbn. apply N.eqb_refl.
     + unfold running_while_tracing. rewrite <- on_after_h_rev, rev_involutive. exact Ec.
-  - intros [a [b [c [id [p [k [w [l [s [e [-> [Hc ->]]]]]]]]]]]].
+  - intros [a [b [c [id [p [k [w [l [s [e [-> [Hne [Hc ->]]]]]]]]]]]]].
     exists (a ++ OStart id p k w l s :: b), (OEnd id e), c. split; [rewrite <- app_assoc; reflexivity|].
     rewrite app_nil_r, rev_app_distr. cbn [rev]. rewrite <- app_assoc. cbn [app rows_of].
-    rewrite (split_start_complete id b (OStart id p k w l s) (rev a)).
-    + unfold running_while_tracing in Hc. rewrite on_after_h_rev, Hc. left. reflexivity.
-    + cbn. apply N.eqb_refl.
-    + eapply wf_no_second_start. exact Hwf.
+    assert (starts_of id (OStart id p k w l s) = true) as Hst by (cbn; apply N.eqb_refl).
+    assert (forallb (fun x => negb (starts_of id x)) b = true) as Hns.
+    { apply (no_restart id b (OStart id p k w l s) (rev a)); auto.
+      unfold wf_ops in Hwf. rewrite rev_app_distr in Hwf. cbn [rev] in Hwf.
+      rewrite rev_app_distr in Hwf. cbn [rev] in Hwf. rewrite <- !app_assoc in Hwf. cbn [app] in Hwf.
+      apply wf_h_app in Hwf. apply (wf_h_app [OEnd id e]) in Hwf. exact Hwf. }
+    rewrite (live_rev_app id b _ (rev a) Hst Hns), Hne.
+    rewrite (split_start_complete id b (OStart id p k w l s) (rev a) Hst Hns).
+    unfold running_while_tracing in Hc. rewrite on_after_h_rev, Hc. left. reflexivity.
 Qed.
 
 (** ---------------------------------------------------------------- each task once *)
 Definition row_id (r : row) : N := nth 0 r 0.
 
+Lemma live_started id h : live id h = true -> In id (started_ids h).
+Proof.
+  induction h as [|o r IH]; cbn [live]; [discriminate|].
+  rewrite started_ids_cons. destruct o; auto.
+  - destruct (id0 =? id) eqn:E; [apply N.eqb_eq in E; subst; intros _; left; reflexivity|intro H; right; auto].
+  - destruct (id0 =? id); [discriminate|auto].
+Qed.
+
+Lemma started_ids_app a b : started_ids (a ++ b) = started_ids a ++ started_ids b.
+Proof. unfold started_ids. apply flat_map_app. Qed.
+
+Lemma started_ids_rev_In i l : In i (started_ids (rev l)) <-> In i (started_ids l).
+Proof.
+  unfold started_ids. rewrite !in_flat_map. split; intros [e [H1 H2]]; exists e; split; auto;
+    [apply in_rev; exact H1|apply in_rev; rewrite rev_involutive; exact H1].
+Qed.
+
+(** a recorded row belongs to a task running now or started later *)
 Lemma spec_trace_ids h ops :
-  forall i, In i (map row_id (fst (fst (spec_rows h ops)))) -> In i (ended_ids ops).
+  forall i, In i (map row_id (fst (fst (spec_rows h ops)))) -> live i h = true \/ In i (started_ids ops).
 Proof.
   revert h. induction ops as [|o r IH]; intros h i; [intros []|].
   rewrite spec_rows_cons. specialize (IH (o :: h) i).
   destruct (spec_rows (o :: h) r) as [[tr mi] tg]. destruct (rows_of h o) as [[tr0 mi0] tg0] eqn:Er.
-  cbn [fst snd] in *. rewrite map_app, in_app_iff, ended_ids_cons. intros [H|H].
+  cbn [fst snd] in *. rewrite map_app, in_app_iff, started_ids_cons. intros [H|H].
   - destruct o as [| id e | | | | |]; cbn [rows_of] in Er; try (injection Er as <- _ _; destruct H).
+    destruct (live id h) eqn:Hl; [|injection Er as <- _ _; destruct H].
     destruct (split_start id h []) as [[[b st] older]|]; [|injection Er as <- _ _; destruct H].
     destruct st; try (injection Er as <- _ _; destruct H).
     destruct (on_after_h older || existsb is_start_tracing b); injection Er as <- _ _; [|destruct H].
-    destruct H as [<-|[]]. left. reflexivity.
-  - destruct o; auto. right. auto.
+    destruct H as [<-|[]]. left. exact Hl.
+  - destruct (IH H) as [Hl|Hin].
+    + destruct o; cbn [live] in Hl; auto.
+      * destruct (id =? i) eqn:E; [apply N.eqb_eq in E; subst; right; left; reflexivity|left; exact Hl].
+      * destruct (id =? i); [discriminate|left; exact Hl].
+    + right. destruct o; auto. right. exact Hin.
 Qed.
 
-Lemma wf_ended_nodup h : wf_h h = true -> NoDup (ended_ids h).
+Lemma recorded_once_gen ops : forall h, NoDup (started_ids (rev h) ++ started_ids ops) ->
+  NoDup (map row_id (fst (fst (spec_rows h ops)))).
 Proof.
-  induction h as [|o r IH]; intro H; [constructor|].
-  apply wf_h_cons in H. destruct H as [Hr [_ Ho]]. rewrite ended_ids_cons.
-  destruct o; auto. constructor; [|auto].
-  unfold live in Ho. apply andb_true_iff in Ho. destruct Ho as [_ Ho]. apply negb_true_iff in Ho.
-  intro Hin. apply existsb_eqb_In in Hin. congruence.
-Qed.
-
-Lemma ended_ids_rev_In i l : In i (ended_ids (rev l)) <-> In i (ended_ids l).
-Proof.
-  unfold ended_ids. rewrite !in_flat_map. split; intros [e [H1 H2]]; exists e; split; auto;
-    [apply in_rev; exact H1|apply in_rev; rewrite rev_involutive; exact H1].
-Qed.
-
-Lemma ended_ids_app a b : ended_ids (a ++ b) = ended_ids a ++ ended_ids b.
-Proof. unfold ended_ids. apply flat_map_app. Qed.
-
-Lemma ended_ids_rev ops : ended_ids (rev ops) = rev (ended_ids ops).
-Proof.
-  induction ops as [|o r IH]; [reflexivity|]. cbn [rev]. rewrite ended_ids_app, IH, ended_ids_cons.
-  destruct o; cbn [ended_ids flat_map app rev]; rewrite ?app_nil_r; reflexivity.
-Qed.
-
-Lemma nodup_ended_forward ops : wf_ops ops = true -> NoDup (ended_ids ops).
-Proof.
-  intro H. apply wf_ended_nodup in H.
-  rewrite ended_ids_rev in H. apply NoDup_rev in H. rewrite rev_involutive in H. exact H.
-Qed.
-
-Lemma recorded_once_gen ops : NoDup (ended_ids ops) ->
-  forall h, NoDup (map row_id (fst (fst (spec_rows h ops)))).
-Proof.
-  induction ops as [|o r IH]; intros Hnd h; [constructor|].
-  rewrite spec_rows_cons. rewrite ended_ids_cons in Hnd.
-  assert (NoDup (ended_ids r)) as Hr by (destruct o; auto; inversion Hnd; auto).
-  pose proof (spec_trace_ids (o :: h) r) as Hsub. specialize (IH Hr (o :: h)).
+  induction ops as [|o r IH]; intros h Hnd; [constructor|].
+  rewrite spec_rows_cons.
+  assert (NoDup (started_ids (rev (o :: h)) ++ started_ids r)) as Hnd'.
+  { cbn [rev]. rewrite started_ids_app, <- app_assoc. rewrite started_ids_cons in Hnd.
+    destruct o; cbn [started_ids flat_map app]; try rewrite app_nil_r; exact Hnd. }
+  pose proof (spec_trace_ids (o :: h) r) as Hsub. specialize (IH (o :: h) Hnd').
   destruct (spec_rows (o :: h) r) as [[tr mi] tg]. destruct (rows_of h o) as [[tr0 mi0] tg0] eqn:Er.
   cbn [fst snd] in *. rewrite map_app.
   destruct o as [| id e | | | | |]; cbn [rows_of] in Er; try (injection Er as <- _ _; exact IH).
+  destruct (live id h) eqn:Hl; [|injection Er as <- _ _; exact IH].
   destruct (split_start id h []) as [[[b st] older]|]; [|injection Er as <- _ _; exact IH].
   destruct st; try (injection Er as <- _ _; exact IH).
   destruct (on_after_h older || existsb is_start_tracing b); injection Er as <- _ _; [|exact IH].
   cbn [map app row_id trace_row nth]. constructor; [|exact IH].
-  intro Hin. apply Hsub in Hin. inversion Hnd; auto.
+  intro Hin. destruct (Hsub id Hin) as [Hc|Hc].
+  - cbn [live] in Hc. rewrite N.eqb_refl in Hc. discriminate.
+  - (* started again later: the ID would be started twice *)
+    apply live_started in Hl. rewrite started_ids_cons in Hnd. cbn in Hnd.
+    clear - Hl Hc Hnd. apply (proj2 (started_ids_rev_In id h)) in Hl.
+    induction (started_ids (rev h)) as [|x l IHl]; [destruct Hl|].
+    cbn [app] in Hnd. inversion Hnd as [|? ? Hni Hnd']; subst. destruct Hl as [->|Hl]; [|auto].
+    apply Hni. apply in_or_app. right. exact Hc.
 Qed.
 
-Theorem recorded_once ops : wf_ops ops = true -> NoDup (map row_id (fst (fst (spec_rows [] ops)))).
-Proof. intro Hwf. apply recorded_once_gen. apply nodup_ended_forward. exact Hwf. Qed.
+(** with task IDs that are never reused, no two rows carry the same ID *)
+Theorem recorded_once ops : NoDup (started_ids ops) -> NoDup (map row_id (fst (fst (spec_rows [] ops)))).
+Proof. intro H. apply recorded_once_gen. exact H. Qed.
 
 (** at most one milestone per instant *)
 Lemma fpi_times_in seen l r : In r (first_per_instant seen l) -> ~ In (mile_time r) seen.
